@@ -29,18 +29,19 @@ def astOf : TV → GoExpr
 def declOf (vs : List TV) : GoFuncDecl :=
   { recv := none, params := vs.map fun tv => ⟨1, astOf tv⟩ }
 
-/-- `_, ok := e.(*ast.Ellipsis)`: the field is variadic -/
-def isEllipsis : GoExpr → Bool
+/-- the field is variadic: its type, parentheses stripped, is `...T` -/
+def isEllipsis (t : GoExpr) : Bool :=
+  match unparen t with
   | .ellipsis _ => true
   | _ => false
 
 /-- the fields whose type names are produced: the receiver iff there is
-exactly one receiver field and its type is a pointer type `*X`, then the
-parameters -/
+exactly one receiver field and its type, parentheses stripped, is a pointer
+type `*X`; then the parameters -/
 def usedFields (d : GoFuncDecl) : List GoField :=
   match d.recv with
   | some [f] =>
-    match f.typ with
+    match unparen f.typ with
     | .star _ => f :: d.params
     | _ => d.params
   | _ => d.params
@@ -69,7 +70,15 @@ def valueRecvDecl : GoFuncDecl :=
 /-- `func (t *G[K]) F(g G[int], p (int), s struct{}, a [...]int, f func(int) error, e any)` -/
 def oddDecl : GoFuncDecl :=
   { recv := some [⟨1, .star .other⟩],
-    params := [⟨1, .other⟩, ⟨1, .other⟩, ⟨1, .other⟩, ⟨1, .arrayType (some (.ellipsis none)) (.ident b!"int")⟩,
+    params := [⟨1, .other⟩, ⟨1, .paren (.ident b!"int")⟩, ⟨1, .other⟩, ⟨1, .arrayType (some (.ellipsis none)) (.ident b!"int")⟩,
                ⟨1, .funcType⟩, ⟨1, .ident b!"any"⟩] }
+
+/-- `func (t (*T)) F(a (int8), b ((*[]int)), c []((pkg.E)), s (string))` -/
+def parenDecl : GoFuncDecl :=
+  { recv := some [⟨1, .paren (.star (.ident b!"T"))⟩],
+    params := [⟨1, .paren (.ident b!"int8")⟩,
+               ⟨1, .paren (.paren (.star (.arrayType none (.ident b!"int"))))⟩,
+               ⟨1, .arrayType none (.paren (.paren (.selector (.ident b!"pkg") b!"E")))⟩,
+               ⟨1, .paren (.ident b!"string")⟩] }
 
 end PP.Spec
